@@ -1,4 +1,148 @@
-// Instantiation driver: names every function template instantiation the contracts quantify over,
-// so that clang's AST contains their bodies.  Compiled -fsyntax-only, never linked or run.
+// Instantiation driver: names every function-template instantiation the contracts quantify over, so that
+// clang's AST contains their bodies.  Compiled -fsyntax-only (never linked or run) with exactly the flags
+// and macros of the configuration under extraction; overload resolution and instantiation are the compiler's.
 #include <avel/Avel.hpp>
 #include <avel/Aligned_allocator.hpp>
+#include <avel/Cache.hpp>
+
+namespace avel_verif_driver {
+
+    using avel::extract; using avel::insert; using avel::bit_shift_left; using avel::bit_shift_right;
+    using avel::rotl; using avel::rotr; using avel::load; using avel::aligned_load; using avel::store; using avel::aligned_store;
+
+    // ---- lane access: extract<I>, insert<I> for I in 0..W-1 (vectors and masks)
+    template<class V, class M, unsigned I>
+    struct Lanes {
+        static void go(V v, M m, typename V::scalar x) {
+            (void)extract<I>(v); (void)insert<I>(v, x);
+            (void)extract<I>(m); (void)insert<I>(m, true);
+            Lanes<V, M, I - 1>::go(v, m, x);
+        }
+    };
+    template<class V, class M>
+    struct Lanes<V, M, 0> {
+        static void go(V v, M m, typename V::scalar x) {
+            (void)extract<0>(v); (void)insert<0>(v, x);
+            (void)extract<0>(m); (void)insert<0>(m, true);
+        }
+    };
+
+    // ---- compile-time shifts S in 0..bits, rotations S in 0..bits-1 and the forwarding overload for S >= bits
+    template<class V, unsigned S>
+    struct Shifts {
+        static void go(V v) {
+            (void)bit_shift_left<S>(v); (void)bit_shift_right<S>(v); (void)rotl<S>(v); (void)rotr<S>(v);
+            Shifts<V, S - 1>::go(v);
+        }
+    };
+    template<class V>
+    struct Shifts<V, 0> {
+        static void go(V v) {
+            (void)bit_shift_left<0>(v); (void)bit_shift_right<0>(v); (void)rotl<0>(v); (void)rotr<0>(v);
+        }
+    };
+    template<class V, unsigned B>
+    void shifts(V v) {
+        Shifts<V, B - 1>::go(v);
+        (void)bit_shift_left<B>(v); (void)bit_shift_right<B>(v);
+        (void)rotl<B>(v); (void)rotr<B>(v); (void)rotl<B + 1>(v); (void)rotr<B + 1>(v);
+        (void)rotl<2 * B - 1>(v); (void)rotr<2 * B - 1>(v); (void)rotl<2 * B>(v); (void)rotr<2 * B>(v);
+        (void)rotl<0xffffffffu>(v); (void)rotr<0xffffffffu>(v);
+    }
+
+    // ---- compile-time element counts N in 0..W for loads, stores, gathers, scatters
+    template<class V, unsigned N>
+    struct Mem {
+        static void go(V v, typename V::scalar* p, const typename V::scalar* cp) {
+            (void)load<V, N>(cp); (void)aligned_load<V, N>(cp);
+            store<N>(p, v); aligned_store<N>(p, v);
+            Mem<V, N - 1>::go(v, p, cp);
+        }
+    };
+    template<class V>
+    struct Mem<V, 0> {
+        static void go(V v, typename V::scalar* p, const typename V::scalar* cp) {
+            (void)load<V, 0>(cp); (void)aligned_load<V, 0>(cp);
+            store<0>(p, v); aligned_store<0>(p, v);
+        }
+    };
+
+    template<class V, class I, unsigned N>
+    struct Gat {
+        static void go(V v, I idx, typename V::scalar* p, const typename V::scalar* cp) {
+            (void)avel::gather<V, N>(cp, idx);
+            avel::scatter<N>(p, v, idx);
+            Gat<V, I, N - 1>::go(v, idx, p, cp);
+        }
+    };
+    template<class V, class I>
+    struct Gat<V, I, 0> {
+        static void go(V v, I idx, typename V::scalar* p, const typename V::scalar* cp) {
+            (void)avel::gather<V, 0>(cp, idx);
+            avel::scatter<0>(p, v, idx);
+        }
+    };
+
+    template<class V, unsigned BITS>
+    void int_vector() {
+        V v{}; typename V::mask m{}; typename V::scalar x{};
+        typename V::scalar buf[V::width];
+        Lanes<V, typename V::mask, V::width - 1>::go(v, m, x);
+        shifts<V, BITS>(v);
+        Mem<V, V::width>::go(v, buf, buf);
+    }
+
+    template<class V>
+    void float_vector() {
+        V v{}; typename V::mask m{}; typename V::scalar x{};
+        typename V::scalar buf[V::width];
+        Lanes<V, typename V::mask, V::width - 1>::go(v, m, x);
+        Mem<V, V::width>::go(v, buf, buf);
+    }
+
+    template<class V>
+    void gathers() {
+        V v{}; typename V::scalar buf[V::width];
+        avel::Vector<typename avel::to_index_type<typename V::scalar>::type, V::width> idx{};
+        Gat<V, decltype(idx), V::width>::go(v, idx, buf, buf);
+    }
+
+    void roots() {
+        int_vector<avel::vec1x8u, 8>();   int_vector<avel::vec1x8i, 8>();
+        int_vector<avel::vec1x16u, 16>(); int_vector<avel::vec1x16i, 16>();
+        int_vector<avel::vec1x32u, 32>(); int_vector<avel::vec1x32i, 32>();
+        int_vector<avel::vec1x64u, 64>(); int_vector<avel::vec1x64i, 64>();
+        float_vector<avel::vec1x32f>();   float_vector<avel::vec1x64f>();
+        gathers<avel::vec1x32u>(); gathers<avel::vec1x32i>(); gathers<avel::vec1x64u>(); gathers<avel::vec1x64i>();
+        gathers<avel::vec1x32f>(); gathers<avel::vec1x64f>();
+#if defined(AVEL_SSE2)
+        int_vector<avel::vec16x8u, 8>();  int_vector<avel::vec16x8i, 8>();
+        int_vector<avel::vec8x16u, 16>(); int_vector<avel::vec8x16i, 16>();
+        int_vector<avel::vec4x32u, 32>(); int_vector<avel::vec4x32i, 32>();
+        int_vector<avel::vec2x64u, 64>(); int_vector<avel::vec2x64i, 64>();
+        float_vector<avel::vec4x32f>();   float_vector<avel::vec2x64f>();
+        gathers<avel::vec4x32u>(); gathers<avel::vec4x32i>(); gathers<avel::vec2x64u>(); gathers<avel::vec2x64i>();
+        gathers<avel::vec4x32f>(); gathers<avel::vec2x64f>();
+#endif
+#if defined(AVEL_AVX2)
+        int_vector<avel::vec32x8u, 8>();   int_vector<avel::vec32x8i, 8>();
+        int_vector<avel::vec16x16u, 16>(); int_vector<avel::vec16x16i, 16>();
+        int_vector<avel::vec8x32u, 32>();  int_vector<avel::vec8x32i, 32>();
+        int_vector<avel::vec4x64u, 64>();  int_vector<avel::vec4x64i, 64>();
+        float_vector<avel::vec8x32f>();    float_vector<avel::vec4x64f>();
+        gathers<avel::vec8x32u>(); gathers<avel::vec8x32i>(); gathers<avel::vec4x64u>(); gathers<avel::vec4x64i>();
+        gathers<avel::vec8x32f>(); gathers<avel::vec4x64f>();
+#endif
+#if defined(AVEL_AVX512F)
+        int_vector<avel::vec16x32u, 32>(); int_vector<avel::vec16x32i, 32>();
+        int_vector<avel::vec8x64u, 64>();  int_vector<avel::vec8x64i, 64>();
+        float_vector<avel::vec16x32f>();   float_vector<avel::vec8x64f>();
+        gathers<avel::vec16x32u>(); gathers<avel::vec16x32i>(); gathers<avel::vec8x64u>(); gathers<avel::vec8x64i>();
+        gathers<avel::vec16x32f>(); gathers<avel::vec8x64f>();
+#endif
+#if defined(AVEL_AVX512BW)
+        int_vector<avel::vec64x8u, 8>();   int_vector<avel::vec64x8i, 8>();
+        int_vector<avel::vec32x16u, 16>(); int_vector<avel::vec32x16i, 16>();
+#endif
+    }
+}
